@@ -354,14 +354,41 @@ def run_history(case, ctx):
                 add(Entry(Z, e.tol), j)
                 labels_mut = True
             elif op == "apply":
-                if spec.hyperbolic:
-                    M = isometry_from(vals, n)
-                    T = hyperbolic.Isometry(M.copy(), column_vectors=False)
+                mk = (lambda v: isometry_from(v, n)) if spec.hyperbolic else \
+                    (lambda v: projmap_from(v, n))
+                wrap = (lambda M: hyperbolic.Isometry(M.copy(), column_vectors=False)) \
+                    if spec.hyperbolic else \
+                    (lambda M: projective.Transformation(M.copy(), column_vectors=False))
+                rot = lambda v, r: [v[(a + r) % len(v)] for a in range(len(v))]
+                mode = kk % 4
+                XP = np.asarray(X.proj_data)
+                if mode in (0, 3) or len(shape) == 0:
+                    M = mk(vals)
+                    Z = wrap(M) @ X
+                    want = XP @ M
+                    ctx.label("apply=single")
+                elif mode == 1:
+                    # one transformation per unit (elementwise, same composite shape)
+                    cnt = int(np.prod(shape))
+                    Ms = np.array([mk(rot(vals, r)) for r in range(cnt)]).reshape(
+                        shape + (n + 1, n + 1))
+                    Z = wrap(Ms).apply(X, "elementwise")
+                    want = np.empty_like(XP, dtype=float)
+                    for idx in np.ndindex(*shape):
+                        want[idx] = XP[idx] @ Ms[idx]
+                    ctx.label("apply=elementwise-composite")
                 else:
-                    M = projmap_from(vals, n)
-                    T = projective.Transformation(M.copy(), column_vectors=False)
-                Z = T @ X
-                want = np.asarray(X.proj_data) @ M
+                    # pairwise: result[i][j] = transformation j applied to unit i
+                    Ms = np.array([mk(rot(vals, r)) for r in range(2)])
+                    Z = wrap(Ms).apply(X, "pairwise")
+                    want = np.empty(shape + (2,) + spec.unit, dtype=float)
+                    for idx in np.ndindex(*shape):
+                        for jj in range(2):
+                            want[idx + (jj,)] = XP[idx] @ Ms[jj]
+                    ctx.label("apply=pairwise")
+                ctx.check(np.asarray(Z.proj_data).shape == want.shape,
+                          "apply: shape of the result", got=np.asarray(Z.proj_data).shape,
+                          want=want.shape)
                 ctx.close("T @ X moves the primary data by the row matrix",
                           np.asarray(Z.proj_data), want, rtol=max(e.tol, 1e-12) * 10,
                           atol=max(e.tol, 1e-12) * 10 * max(1.0, np.abs(want).max()))
